@@ -338,9 +338,11 @@ def _oracle(K, rec, counters):
                 if fr["M"] == 1 and pos != fr["pos"]:
                     out.append("try_catch_return_false (rule %d) caught an exception in required mode but left the cursor at %s (started at %s)" % (n[1], pos, fr["pos"]))
                 counters["caught_frames_checked"] += 1
+            if n[2] == 0 and ctl >= 4 and n[1] in getattr(K, "rof", ()):
+                # a rule that must match (message in the must_if error table, raise_on_failure) can only leave by success or
+                # by exception: whatever made the attempt fail (its body, or a veto of its own action), failure() raises
+                out.append("rule %d has a must_if message but its attempt ended in a local failure at %s (its failure() did not raise)" % (n[1], pos))
             if n[2] == 0 and stack and head(stack[-1]["rule"])[0] == "must" and table[stack[-1]["rule"]]["subs"][-1:] == [n[1]]:
-                if ctl >= 4 and n[1] in getattr(K, "rof", ()):
-                    out.append("rule %d has a must_if message but failed locally (its failure() did not raise)" % n[1])
                 expect_raise = (n[1], pos)
             last_exit = (n[1], n[2], pos)
         elif k == "R":
@@ -663,7 +665,8 @@ def choose_cfgs(g, k, tier):
     if "atoms" in g.tags:
         return er.EOL_CFGS
     if "c05:mustif" in g.tags:
-        return MUSTIF_CFGS if tier == "thorough" else [MUSTIF_CFGS[0], MUSTIF_CFGS[1 + k % 5]]
+        # the vetoing family under must_if (a rule that matched but was vetoed must still raise from failure()) for every grammar
+        return MUSTIF_CFGS if tier == "thorough" else sorted(set([MUSTIF_CFGS[0], MUSTIF_CFGS[2], MUSTIF_CFGS[1 + k % 5]]))
     if "c05:pos" in g.tags:
         return POS_CFGS if tier == "thorough" else POS_CFGS[:4] + [POS_CFGS[4 + k % 2]]
     if tier == "thorough":
